@@ -66,7 +66,7 @@ Ballot == [n |-> Ev.from, h |-> Ev.h, r |-> Ev.r, s |-> Ev.s, f |-> Ev.f]
 Sender == [n |-> Ev.n, h |-> Ev.h, r |-> Ev.r, s |-> Ev.s, f |-> Ev.f]
 VP == [h |-> Ev.h, r |-> Ev.r, s |-> Ev.s, res |-> Ev.res, f |-> Ev.f]
 IsBlk(b) == b[1] # -1        \* a block some honest node computed
-PRec(p) == [h |-> p[1], r |-> p[2], v |-> p[3]]
+PRec(p) == p                 \* proposals are tuples <<h, r, v>> in ISAAC.tla
 
 (* guards of a ballot of an honest node becoming visible (SendINIT / the ACCEPT branch of React) *)
 SendGuards(i, m) ==
@@ -84,16 +84,18 @@ TReset ==
   /\ chain' = [i \in Node |-> <<>>] /\ proc' = [i \in Node |-> <<>>]
   /\ mode' = [i \in Node |-> "consensus"]
   /\ seen' = [i \in Node |-> {}] /\ done' = [i \in Node |-> {}]
+  /\ blast' = [i \in Node |-> Zero] /\ vpq' = [i \in Node |-> <<>>]
 
 (* ProposalMaker.makeProposal *)
 TProp ==
   /\ Consume /\ Ev.a = "Prop"
-  /\ LET p == [h |-> Ev.h, r |-> Ev.r, v |-> Ev.v] IN
+  /\ LET p == <<Ev.h, Ev.r, Ev.v>> IN
      /\ IF Ev.by = Proposer(Ev.h, Ev.r)
         THEN props' = props \cup {p} /\ UNCHANGED fprops
         ELSE fprops' = fprops \cup {p} /\ UNCHANGED props         \* MakeFallbackProposal
      /\ pby' = pby \cup {[by |-> Ev.by, h |-> Ev.h, r |-> Ev.r, prev |-> Ev.prev, v |-> Ev.v]}
   /\ UNCHANGED <<msgs, box, last, chain, proc, mode, vps, seen, done>>
+  /\ UNCHANGED <<blast, vpq>>
 
 (* broadcast function of the DefaultBallotBroadcaster: first appearance of the ballot on the wire *)
 TBcast ==
@@ -102,6 +104,7 @@ TBcast ==
      /\ IF Ev.n \in Honest /\ m \notin msgs THEN SendGuards(Ev.n, m) ELSE TRUE
      /\ msgs' = msgs \cup {m}
   /\ UNCHANGED <<props, box, last, chain, proc, mode, vps, seen, done, fprops, pby>>
+  /\ UNCHANGED <<blast, vpq>>
 
 (* Ballotbox.Vote returned true.  VoteOwnBeforeBroadcast: the handlers vote their own ballot *)
 (* (VoteFunc) possibly before the broadcast timer fires; the ballot becomes visible here.      *)
@@ -114,6 +117,7 @@ TVote ==
      /\ Expect("Vote-twice", ~\E x \in box[i] : x.n = m.n /\ x.h = m.h /\ x.r = m.r /\ x.s = m.s)
      /\ box' = [box EXCEPT ![i] = @ \cup {m}]
   /\ UNCHANGED <<props, last, chain, proc, mode, vps, seen, done, fprops, pby>>
+  /\ UNCHANGED <<blast, vpq>>
 
 (* Ballotbox.newVoteproof: counted from the accepted ballots (Count, C04) or taken from a ballot (Learn) *)
 TBoxVP ==
@@ -126,8 +130,13 @@ TBoxVP ==
         ELSE /\ Expect("Learn-known", vp \in vps)
              /\ vps' = vps \cup {vp}
      /\ seen' = [seen EXCEPT ![i] = @ \cup {vp}]
+     \* the box emits only voteproofs that are new for ITS last point, which they then become (Emit / Receive);
+     \* soft class: other callers of SetLastPoint (block saved, syncer) are not logged
+     /\ Expect("Box-new", NewVPAt(blast[i], vp))
+     /\ blast' = [blast EXCEPT ![i] = IF NewVPAt(@, vp) THEN PointOf(vp) ELSE @]
   /\ SetLast(Ev.n)
   /\ UNCHANGED <<msgs, props, box, chain, proc, mode, done, fprops, pby>>
+  /\ UNCHANGED vpq
 
 (* StatesArgs.WhenNewVoteproof: the current handler took the voteproof *)
 TVoteproof ==
@@ -135,6 +144,7 @@ TVoteproof ==
   /\ Expect("Handled-seen", VP \in seen[Ev.n])
   /\ SetLast(Ev.n)
   /\ UNCHANGED <<msgs, props, box, chain, proc, mode, vps, seen, done, fprops, pby>>
+  /\ UNCHANGED <<blast, vpq>>
 
 (* DefaultProposalProcessor.Process reached BlockWriter.Manifest: INIT majority branch of React, *)
 (* first half (the ACCEPT broadcast is a separate visible step: TBcast / TVote)                  *)
@@ -149,6 +159,7 @@ TProcessed ==
      /\ done' = [done EXCEPT ![i] = @ \cup {d}]
   /\ SetLast(Ev.n)
   /\ UNCHANGED <<msgs, props, box, chain, mode, vps, seen, fprops, pby>>
+  /\ UNCHANGED <<blast, vpq>>
 
 (* BlockWriter.Save: ACCEPT majority branch of React (C11) *)
 TSaved ==
@@ -161,6 +172,7 @@ TSaved ==
      /\ proc' = [proc EXCEPT ![i] = <<>>]
   /\ SetLast(Ev.n)
   /\ UNCHANGED <<msgs, props, box, mode, vps, seen, done, fprops, pby>>
+  /\ UNCHANGED <<blast, vpq>>
 
 (* syncer imported a block: SyncBlock *)
 TSynced ==
@@ -173,6 +185,7 @@ TSynced ==
      /\ proc' = [proc EXCEPT ![i] = <<>>]
   /\ SetLast(Ev.n)
   /\ UNCHANGED <<msgs, props, box, mode, vps, seen, done, fprops, pby>>
+  /\ UNCHANGED <<blast, vpq>>
 
 (* state switches; Obs: any other event that only carries a sample of the last voteproofs *)
 TSwitched ==
@@ -184,6 +197,7 @@ TSwitched ==
              ELSE mode
   /\ SetLast(Ev.n)
   /\ UNCHANGED <<msgs, props, box, chain, proc, vps, seen, done, fprops, pby>>
+  /\ UNCHANGED <<blast, vpq>>
 
 TraceInit == /\ Init /\ l = 1 /\ fprops = {} /\ pby = {}
              /\ seen = [i \in Node |-> {}] /\ done = [i \in Node |-> {}]
